@@ -108,6 +108,7 @@ fn real_main() {
                 "rich_encrypted" => families::Family::RichEncrypted,
                 "dangling" => families::Family::Dangling,
                 "shared_header" => families::Family::SharedHeader,
+                "jbig_cycle" => families::Family::JbigCycle,
                 _ => families::Family::Rich,
             };
             let mut pool = docs::Pool::new(&repo, env_seed());
